@@ -55,7 +55,9 @@ Inductive case :=
 Definition check (c : case) : bool :=
   match c with
   | KUint buf o => outcome_eqb (pair_eqb Z.eqb N.eqb) (unmarshal_uint buf) o
-  | KBytes buf o => outcome_eqb (pair_eqb Z.eqb bytes_eqb) (unmarshal_bytes_g tree_guard buf) o
+  (* the dependency's xbinary.UnmarshalBytes itself (environment since the repair: no /repo decoder calls it
+     directly any more); the decoders below go through the guarded utils.UnmarshalBytes = unmarshal_bytes_g tree_guard *)
+  | KBytes buf o => outcome_eqb (pair_eqb Z.eqb bytes_eqb) (unmarshal_bytes buf) o
   | KApiLe buf o =>
       outcome_eqb (pair_eqb Z.eqb ev4_eqb)
         (omap (fun '(n, le) => (n, (a_ts le, a_msg le, a_tags le, a_flds le))) (unmarshal_api_le tree_guard buf)) o
